@@ -71,6 +71,9 @@ class Curve(object):
         if x is None and y is None:
             return True
         assert x is not None and y is not None
+        if not (0 <= x < self._p and 0 <= y < self._p):
+            # coordinates are field elements: an unreduced value is not another name for the same point
+            return False
         return (y * y - (x * x * x + self._a * x + self._b)) % self._p == 0
 
     def add(self, p0: Point, p1: Point) -> Point:
